@@ -170,7 +170,14 @@ def run_correspondence(res, cfg, rundir):
     rc, out = sh([binp, "emit", cfg["harness_prop"], str(res.seed), res.tier, rundir],
                  timeout=cfg.get("emit_timeout", 3600), env=env)
     if rc != 0:
-        return None, {"what": "harness emit failed", "rc": rc, "log_tail": out[-3000:]}
+        err = {"what": "harness emit failed", "rc": rc, "log_tail": out[-3000:]}
+        try:
+            last = open(os.path.join(rundir, "req.txt")).read().rstrip("\n").split("\n")[-1]
+            err["crashing_request"] = last[:4000]
+            err["what"] = f"the implementation crashed the harness process (exit status {rc}) while answering the last request written"
+        except Exception:
+            pass
+        return None, err
     drv = os.path.join(LEAN, ".lake", "build", "bin", "p2driver")
     with open(os.path.join(rundir, "model.txt"), "w") as mo:
         p = subprocess.run([drv, os.path.join(rundir, "req.txt")], stdout=mo, stderr=subprocess.PIPE,
@@ -224,8 +231,12 @@ def main():
 
     diffs, err = run_correspondence(res, cfg, rundir)
     corr_broken = []
+    crash = None
     if err is not None:
-        corr_broken.append(err)
+        if "crashing_request" in err and cfg.get("crash_is_violation", True):
+            crash = err
+        else:
+            corr_broken.append(err)
         diffs = []
 
     # property-specific judgement of the differences: concrete property violations vs. broken tie
@@ -239,6 +250,9 @@ def main():
         else:
             unexplained.append(d)
 
+    if crash is not None:
+        concrete.append({"request": crash["crashing_request"], "impl": f"process died (status {crash['rc']})",
+                         "model": "(total function)", "why": crash["what"]})
     # implementation-side oracle failures reported by the harness itself (meta.extra.oracle_failures)
     for of in res.cov.get("harness_extra", {}).get("oracle_failures", []):
         concrete.append({"oracle_failure": of})
